@@ -48,18 +48,18 @@ def kernel_queries(tier):
                     qs.append(kq('kernel/%s/%s-%s' % (OPN[op], KN[lk], KN[rk]), 'h_bit', {'OPER': op, 'LK': lk, 'RK': rk}, backend='cvc5', timeout=300))
     for op in (1, 2, 3, 4, 5, 6, 7, 8):
         qs.append(kq('kernel/%s/any' % OPN[op], 'h_cmp', {'OPER': op, 'LK': 0, 'RK': 0}, kf_excl=[KF_NAT], timeout=300))
-    # ^ : small symbolic base (PB bits) and exponent (|e| <= PE_MAX) of every kind; 64-bit base with a fixed small exponent
+    # ^ : integral base of PB structural bits, concrete integral exponent PE, every kind pair that can hold them
     PW = {'PowerOf': 6}
     KP = 'C04-pow-neg-even-sign'
-    b = {'ref_pow': 17}
-    qs.append(kq('kernel/pow/int', 'h_pow', {'LK': INTS, 'RK': INTS, 'PB': 4, 'PE_MAX': 15}, kf_excl=[KP], bounds=b, rec_bounds=PW, timeout=300))
-    qs.append(kq('kernel/pow/kf-neg-even', 'h_pow', {'LK': INTS, 'RK': INTS, 'PB': 4, 'PE_MAX': 15}, kf_only=KP, bounds=b, rec_bounds=PW, timeout=300))
-    for lk in (1, 2, 3):
-        for rk in (1, 2, 3):
-            if lk == 1 or rk == 1:
-                qs.append(kq('kernel/pow/%s-%s' % (KN[lk], KN[rk]), 'h_pow', {'LK': lk, 'RK': rk, 'PB': 4, 'PE_MAX': 15}, kf_excl=[KP], bounds=b, rec_bounds=PW, backend='cvc5', timeout=300))
-    for e in (0, 1, 2, 3):
-        qs.append(kq('kernel/pow/wide/e%d' % e, 'h_pow', {'LK': INTS, 'RK': INTS, 'PB': 64, 'PE_MAX': 3, 'PE_FIX': e}, kf_excl=[KP], bounds={'ref_pow': 5}, rec_bounds=PW, timeout=300))
+    emax = 6 if tier == 'quick' else 15
+    for e in list(range(-emax, emax + 1)):
+        b = {'ref_pow': abs(e) + 1}
+        d = {'LK': 0, 'RK': (0 if e >= 0 else 16 + 2 + 8), 'PB': 4, 'PE': e}
+        qs.append(kq('kernel/pow/small/e%d' % e, 'h_pow', d, kf_excl=[KP], bounds=b, rec_bounds=PW, backend=('sat' if e >= 0 else 'cvc5'), timeout=300))
+    qs.append(kq('kernel/pow/kf-neg-even', 'h_pow', {'LK': 0, 'RK': 16 + 2 + 8, 'PB': 4, 'PE': -2}, kf_only=KP, bounds={'ref_pow': 3}, rec_bounds=PW, backend='cvc5', timeout=300))
+    for e in (-3, -2, -1, 0, 1, 2, 3):
+        d = {'LK': INTS, 'RK': (INTS if e >= 0 else 3), 'PB': 64, 'PE': e}
+        qs.append(kq('kernel/pow/wide/e%d' % e, 'h_pow', d, kf_excl=[KP], bounds={'ref_pow': abs(e) + 1}, rec_bounds=PW, backend=('sat' if e >= 0 else 'cvc5'), timeout=300))
     return qs
 def queries(tier):
     return kernel_queries(tier)
